@@ -99,9 +99,46 @@ RUNNERS = {
 }
 
 
+KNOWN_WAKERS = ('WakeQueue', 'WakeThread', 'DrainWaker', 'DoubleWaker', 'PipeWaker')
+
+
+def wp_forward(ctx):
+    """A waker type that is not one of the five reviewed ones (each has its own rules) is a wrapper: whoever is polled with it
+    relies on `wake` reaching the party it stands for.  Every path through its wake_by_ref must wake something (a Waker or one of
+    the crate's wakers); a path that returns without doing so swallows the wake-up (coalescing on a flag, a 'not now' test)."""
+    from .rules_locks import cg
+    from .ordq import feasible_reach
+    F = ctx.F
+    g = cg(ctx)
+    out = []
+    for fn in F.crate_fns():
+        if not fn.name.endswith('as futures_task::arc_wake::ArcWake>::wake_by_ref') or (fn.root and fn.root != fn.name):
+            continue
+        ty = short(fn.name).split(' as ')[0].lstrip('<').split('::')[-1]
+        if ty in KNOWN_WAKERS:
+            # a second type with a reviewed name (another module): the body must be the reviewed one's - decided by its own rules
+            continue
+        key = '%s|forwards-every-wake' % ty
+        wakes = set(s_.bb for c in [fn] for s_ in g.sites.get(c.name, []) if s_.kind == 'wake')
+        # wakes made inside closures run by Option::map / for_each count at the call
+        for c in F.crate_fns():
+            if c.root == fn.name and c.name != fn.name and any(s_.kind == 'wake' for s_ in g.sites.get(c.name, [])):
+                for bb, t in fn.calls():
+                    if any(c.name.split('::')[-1] in str(a.get('pl', {}).get('ty', '')) for a in t['args']):
+                        wakes.add(bb)
+        exits = set(fn.exits())
+        if not wakes:
+            out.append(bad(R, key, 'a waker type whose wake_by_ref wakes nothing', fn=fn.name))
+        elif fn.must_pass(0, exits, wakes) or not feasible_reach(fn, 0, exits, wakes):
+            out.append(ok(R, key, 'every path through wake_by_ref wakes the party the waker stands for', fn=fn.name))
+        else:
+            out.append(bad(R, key, 'wake_by_ref of the wrapper waker %s can return without waking anything (a wake-up that arrives while a flag says "not now" is swallowed; the source has spent its registration and will not call again)' % ty, fn=fn.name))
+    return out
+
+
 def wp(ctx):
     F = ctx.F
-    out = []
+    out = wp_forward(ctx)
     n_ctx = n_slot = n_arg = 0
     for fn in F.crate_fns():
         fam = short(fn.root or fn.name)
